@@ -536,9 +536,7 @@ fn gen(args: &Args, emit: &mut dyn FnMut(Value)) {
         };
         // keep the trigger of the known finding W8-F2 (request_time variable x year outside 0..=9999) out of the search
         // families; it has its own family with a model
-        let case = if with_findings {
-            case
-        } else {
+        let case = {
             let text = case.to_string();
             if text.contains("request_time") && OUT_OF_RANGE_DATES.iter().any(|d| text.contains(d)) {
                 serde_json::from_str(&text.replace("\"request_time\"", "\"request_scheme\"")).unwrap()
